@@ -244,6 +244,38 @@ func runScen(cd *caseDir, s *scen) ([]ev, *probe, error) {
 		procs = append(procs, p)
 		killed = append(killed, cmd.Process.Pid)
 	}
+	// The runner's only active part in a schedule: bounded parking (see scen.Fallbacks).
+	stopDirector := make(chan struct{})
+	defer close(stopDirector)
+	for _, fb := range s.Fallbacks {
+		fb := fb
+		res := func(f string) string { return strings.ReplaceAll(f, "@R", filepath.Join(cd.dir, "r")) }
+		go func() {
+			var since time.Time
+			for {
+				select {
+				case <-stopDirector:
+					return
+				case <-time.After(5 * time.Millisecond):
+				}
+				if _, err := os.Lstat(res(fb.Touch)); err == nil {
+					return
+				}
+				if since.IsZero() {
+					if _, err := os.Lstat(res(fb.When)); err == nil {
+						since = time.Now()
+					}
+					continue
+				}
+				if time.Since(since) >= time.Duration(fb.AfterMs)*time.Millisecond {
+					if f, err := os.OpenFile(res(fb.Touch), os.O_CREATE|os.O_WRONLY, 0o644); err == nil {
+						f.Close()
+					}
+					return
+				}
+			}
+		}()
+	}
 	deadline := time.After(75 * time.Second)
 	for _, p := range procs {
 		select {
